@@ -91,6 +91,7 @@ def overlapping_converters(rng, n):
 
 class DerivePlugin(Plugin):
     entry = 9
+    keep = qprops.PRIMITIVES   # the methods that define what a converter denotes; derived operations are C03/C06/C07's business
 
     def observe(self, case):
         return observe_derive(case)
@@ -121,7 +122,7 @@ class DerivePlugin(Plugin):
                 out["records model"] = plain(model[1][-5])
             except Exception:
                 pass
-            out["answer diffs"] = [(i, plain(a), plain(b)) for i, (a, b) in enumerate(zip(obs[1], model[1])) if a != b][:5]
+            out["answer diffs"] = [(i, plain(a), plain(b)) for i, (a, b) in enumerate(zip(obs[1], model[1])) if a != b and a != qprops.WILD][:5]
         return out
 
 
